@@ -38,6 +38,15 @@ TEXT = {
                 "assumed: broadcast delivery to every connection task (channel capacity), see DESIGN.md.",
         "technique": "Lean 4 proof (invariant by induction over operation histories + loop lemmas) + differential correspondence on command histories",
     },
+    "C10": {
+        "level": "Kernel-checked for every piece length and every positive block size: PieceRx::left yields blocks (kB, min(B, len-kB)) for k < ceil(len/B), each "
+                 "non-empty and <= B, contiguous from 0, lengths summing to len (T1_blocks_tile_the_piece; B = 16384 by decide), and new_piece_request writes exactly "
+                 "the first two tiles. PARTIAL: the trace statement T2-T4 (requests in tiling order naming the assigned piece, one further request per accepted "
+                 "block, completion exactly at the last outstanding block) is the executable monitor P10 (C10_trace_full); it is evaluated on the model's and on "
+                 "the implementation's trace of every generated script, but its proof for all scripts is not finished.",
+        "note": KERNEL + "partial: C10_trace_full is stated, not proved; the tie (real task over the in-memory stream) checks it on every run.",
+        "technique": "Lean 4 proof (arithmetic tiling theorem by induction) + trace monitor evaluated on model and implementation + differential correspondence",
+    },
     "C09": {
         "level": "Kernel-checked for all (index, begin, length) in N^3 (so in particular all of u32^3, with begin+length computed without wrap-around) and all "
                  "scripts of requests, choke/unchoke broadcasts and other traffic: the task's trace satisfies the monitor P09 (C09_trace) — per request either no "
